@@ -16,7 +16,13 @@
 #ifndef C_N4
 #define C_N4 -1
 #endif
-uint32_t vp_c20_count(uint32_t which, uint32_t max) { int32_t f = which == 0 ? C_N0 : which == 1 ? C_N1 : which == 2 ? C_N2 : which == 3 ? C_N3 : C_N4;
+#ifndef C_N5
+#define C_N5 -1
+#endif
+#ifndef C_N6
+#define C_N6 -1
+#endif
+uint32_t vp_c20_count(uint32_t which, uint32_t max) { int32_t f = which == 0 ? C_N0 : which == 1 ? C_N1 : which == 2 ? C_N2 : which == 3 ? C_N3 : which == 4 ? C_N4 : which == 5 ? C_N5 : C_N6;
   if (f >= 0) { ASSERT((uint32_t)f <= max, "fixed count above the harness maximum"); return (uint32_t)f; }
   uint32_t n = vp_u32(); ASSUME(n <= max); return n; }
 void vp_c20_string(char *out, uint32_t len, uint16_t c0, uint16_t c1, uint16_t c2) { ASSERT(len <= 3, "c20 string bound"); QAD *d = qs_new(len, 3); uint16_t *p = qs_chars(d); p[0] = c0; p[1] = c1; p[2] = c2; *(QAD**)out = d; }
@@ -223,4 +229,9 @@ void _ZNK4QMapI7QStringN13QXmppDataForm5FieldEE4keysEv(char *ret, char *self) { 
   struct ld *t = ld_new(n); for (uint32_t p = 0; p < QM_CAP; p++) { if (p >= n) break; for (uint32_t i = 0; i < QM_CAP; i++) { if (i < m->cnt && m->present[i] && rank[i] == p) t->array[LD_B + p] = (char*)qad_ref(m->key[i]); } }
   *(struct ld**)ret = t; }
 #endif
+
+/* ---- private-data destructors of form fields / forms: skipped (the last QSharedDataPointer going away would delete the private
+   object incl. its QVector<MediaSource>, QList<QPair>, ...).  C20 makes no claim about memory reclamation. ---- */
+void _ZN25QXmppDataFormFieldPrivateD2Ev(char *self) { }
+void _ZN20QXmppDataFormPrivateD2Ev(char *self) { }
 #endif
